@@ -3,8 +3,8 @@
 # usage: REFAC_ROOT=/tmp/refac2 confirm_refacs.sh schedA
 G=$1; WT=${REFAC_ROOT:-/tmp/refac}/$G
 cd $WT || exit 2
-for r in r1 r2 r3 r4 r5 r6 r7 r8; do
-  D=$WT/_refac/$r
+for r in ${NAMES:-r1 r2 r3 r4 r5 r6 r7 r8}; do
+  D=$WT/${SUBDIR:-_refac}/$r
   [ -f $D/patch.diff ] || continue
   git checkout -q -- mosaik
   git apply $D/patch.diff || { echo "$G/$r APPLY-FAILED"; continue; }
